@@ -190,9 +190,12 @@ def make_evaluator(defs: Dict[str, ast.expr],
             if f in ("min", "max") and len(e.args) == 1 and isinstance(
                     e.args[0], (ast.GeneratorExp, ast.ListComp)):
                 return ev(e.args[0].elt, depth + 1)   # extremum of like terms
-            if f in ("min", "max") and len(e.args) >= 2:
-                return ev(ast.Tuple(elts=list(e.args), ctx=ast.Load()),
-                          depth + 1)
+            if (f in ("min", "max") or last in ("maximum", "minimum",
+                                                "fmax", "fmin")) \
+                    and len(e.args) >= 2:
+                # (np.maximum / np.minimum: the elementwise extremum)
+                return ev(ast.Tuple(elts=list(e.args[:2] if last not in (
+                    "min", "max") else e.args), ctx=ast.Load()), depth + 1)
             if last in RANDOM or f in ("len", "range", "np.arange",
                                        "np.ones", "np.zeros", "np.eye") \
                     or last in ("RandomState", "default_rng"):
